@@ -59,6 +59,10 @@ class SpecEval:
     def __init__(self, hooks=None):
         self.hooks = hooks      # executor (for class attribute / enum resolution)
 
+    def i(self, v):
+        """integer value of a specification term (an Optional is read through: specs are total)"""
+        return ops.as_int(v.val if isinstance(v, VOpt) else v)
+
     def bool(self, node, ctx):
         v = self.ev(node, ctx)
         return ops.truth(v)
@@ -335,23 +339,23 @@ class SpecEval:
         return self.ite(self.bool(n.args[0], ctx), self.ev(n.args[1], ctx), self.ev(n.args[2], ctx))
 
     def fn_min(self, n, ctx):
-        a, b = [ops.as_int(self.ev(x, ctx)) for x in n.args]
+        a, b = [self.i(self.ev(x, ctx)) for x in n.args]
         return VInt(ops.zmin(a.z, b.z))
 
     def fn_max(self, n, ctx):
-        a, b = [ops.as_int(self.ev(x, ctx)) for x in n.args]
+        a, b = [self.i(self.ev(x, ctx)) for x in n.args]
         return VInt(ops.zmax(a.z, b.z))
 
     def fn_bool(self, n, ctx):
         return VBool(self.bool(n.args[0], ctx))
 
     def fn_int(self, n, ctx):
-        return ops.as_int(self.ev(n.args[0], ctx))
+        return self.i(self.ev(n.args[0], ctx))
 
     def fn_be(self, n, ctx):
         """be(x, n): n-byte big-endian encoding of x"""
-        x = ops.as_int(self.ev(n.args[0], ctx))
-        k = ops.as_int(self.ev(n.args[1], ctx)).conc()
+        x = self.i(self.ev(n.args[0], ctx))
+        k = self.i(self.ev(n.args[1], ctx)).conc()
         if k is None:
             raise VError('spec: be(x, n) needs a constant n')
         return VBytes(ops.be_bytes(x.z, k))
@@ -359,13 +363,13 @@ class SpecEval:
     def fn_be_val(self, n, ctx):
         """be_val(b, n): value of the first n bytes of b, big endian"""
         b = self.ev(n.args[0], ctx)
-        k = ops.as_int(self.ev(n.args[1], ctx)).conc()
+        k = self.i(self.ev(n.args[1], ctx)).conc()
         val, facts = ops.be_value(b.z, 0, k)
         ctx.facts.extend(facts)
         return VInt(val)
 
     def fn_zeros(self, n, ctx):
-        k = ops.as_int(self.ev(n.args[0], ctx))
+        k = self.i(self.ev(n.args[0], ctx))
         v, errs = ops.bytes_repeat(VBytes(b'\x00'), k)
         self._facts(errs, ctx)
         return v
@@ -386,8 +390,8 @@ class SpecEval:
         if inner_facts:
             body = z3.Implies(z3.And(inner_facts), body) if forall else z3.And(z3.And(inner_facts), body)
         if len(n.args) >= 3:
-            lo = ops.as_int(self.ev(n.args[1], ctx)).z
-            hi = ops.as_int(self.ev(n.args[2], ctx)).z
+            lo = self.i(self.ev(n.args[1], ctx)).z
+            hi = self.i(self.ev(n.args[2], ctx)).z
             rng = z3.And(lo <= vars_[0], vars_[0] < hi)
             body = z3.Implies(rng, body) if forall else z3.And(rng, body)
         return VBool(z3.ForAll(vars_, body) if forall else z3.Exists(vars_, body))
@@ -422,14 +426,15 @@ class SpecEval:
     def apply_spec(self, sf, args, ctx):
         if len(args) != len(sf.params):
             raise VError(f'spec {sf.name}: arity')
-        if not sf.recursive:
+        opaque = getattr(sf, 'opaque', False)
+        if not sf.recursive and not opaque:
             env = dict(zip(sf.params, [self.coerce(a, t) for a, t in zip(args, sf.params.values())]))
             return self.ev(sf.body, ctx.with_env(env))
         fn = spec_fn_z3(sf)
-        zargs = [to_z3(a, t) for a, t in zip(args, sf.params.values())]
+        zargs = [to_z3(self.coerce(a, t), t) for a, t in zip(args, sf.params.values())]
         app = fn(*zargs)
         res = from_z3(app, sf.returns)
-        if ctx.unfold > 0:
+        if ctx.unfold > 0 and not opaque:
             self.unfold(sf, args, ctx)
         return res
 
